@@ -128,6 +128,7 @@ Record aux_state := {
   strig : list nat;                      (* shutdown-trigger offers not yet received *)
   sub_ok : list bool;                    (* GetStateChan of i may return *)
   polling : bool;                        (* Main is inside a (slow) IsRunning() call *)
+  finals : list (option st);             (* final state Shutdown recorded for i after its Stop() (repo fix for C06) *)
 }.
 
 Record state := {
@@ -413,7 +414,8 @@ Definition init (c : config) : state :=
      smap := repeat None n;
      hup := 0; callers := []; subs := []; passes := 0;
      aux := {| rtrig := repeat 0 n; strig := repeat 0 n;
-               sub_ok := map (fun r => negb (held_sub r)) (specs c); polling := false |};
+               sub_ok := map (fun r => negb (held_sub r)) (specs c); polling := false;
+               finals := repeat None n |};
      hist := [] |}.
 
 (* ------------------------------------------------------------------ labels *)
@@ -557,13 +559,27 @@ Definition mark_mon_done (l : list mon_pc) : list mon_pc :=
   map (fun p => match p with MoAbsent => MoAbsent | _ => MoDone end) l.
 
 Definition set_rtrig (s : state) (l : list nat) : state :=
-  set_aux s {| rtrig := l; strig := strig (aux s); sub_ok := sub_ok (aux s); polling := polling (aux s) |}.
+  set_aux s {| rtrig := l; strig := strig (aux s); sub_ok := sub_ok (aux s); polling := polling (aux s); finals := finals (aux s) |}.
 Definition set_strig (s : state) (l : list nat) : state :=
-  set_aux s {| rtrig := rtrig (aux s); strig := l; sub_ok := sub_ok (aux s); polling := polling (aux s) |}.
+  set_aux s {| rtrig := rtrig (aux s); strig := l; sub_ok := sub_ok (aux s); polling := polling (aux s); finals := finals (aux s) |}.
 Definition set_sub_ok (s : state) (l : list bool) : state :=
-  set_aux s {| rtrig := rtrig (aux s); strig := strig (aux s); sub_ok := l; polling := polling (aux s) |}.
+  set_aux s {| rtrig := rtrig (aux s); strig := strig (aux s); sub_ok := l; polling := polling (aux s); finals := finals (aux s) |}.
 Definition set_polling (s : state) (b : bool) : state :=
-  set_aux s {| rtrig := rtrig (aux s); strig := strig (aux s); sub_ok := sub_ok (aux s); polling := b |}.
+  set_aux s {| rtrig := rtrig (aux s); strig := strig (aux s); sub_ok := sub_ok (aux s); polling := b; finals := finals (aux s) |}.
+Definition set_finals (s : state) (l : list (option st)) : state :=
+  set_aux s {| rtrig := rtrig (aux s); strig := strig (aux s); sub_ok := sub_ok (aux s); polling := polling (aux s);
+               finals := l |}.
+
+(* Shutdown, after the wait for the goroutines has COMPLETED (not after its timeout): the final states
+   recorded after each Stop() are stored again - a state monitor that was still catching up may have written
+   an older value over one of them, and the monitors are gone now (repo fix for C06) *)
+Fixpoint overlay (f m : list (option st)) : list (option st) :=
+  match f, m with
+  | Some v :: f', _ :: m' => Some v :: overlay f' m'
+  | None :: f', x :: m' => x :: overlay f' m'
+  | _, _ => m
+  end.
+Definition restore_finals (s : state) : state := set_smap s (overlay (finals (aux s)) (smap s)) (subs s).
 
 (* all labels except the quiescence observations *)
 Definition step0 (c : config) (s : state) (l : label) : option state :=
@@ -693,7 +709,9 @@ Definition step0 (c : config) (s : state) (l : label) : option state :=
     match sd s with
     | SdIn j =>
       if Nat.eqb i j && stop_may_return c s i then
-        Some (with_hist (store_state c (set_sd s (sd_next i)) i) (EStopRet i))
+        Some (with_hist (store_state c (if stateable (spec c i)
+                                        then set_finals (set_sd s (sd_next i)) (upd (finals (aux s)) i (Some (cur_at s i)))
+                                        else set_sd s (sd_next i)) i) (EStopRet i))
       else None
     | _ => None
     end
@@ -704,7 +722,7 @@ Definition step0 (c : config) (s : state) (l : label) : option state :=
     end
   | LSdWgDone =>
     match sd s with
-    | SdWait => if wg_zero s then Some (set_sd s SdDone) else None
+    | SdWait => if wg_zero s then Some (restore_finals (set_sd s SdDone)) else None
     | _ => None
     end
   | LSdTimeout =>
@@ -933,7 +951,8 @@ Definition step0 (c : config) (s : state) (l : label) : option state :=
   | LSubRel i =>
     if Nat.ltb i n then
       Some (with_hist (set_aux s {| rtrig := rtrig (aux s); strig := strig (aux s);
-                                    sub_ok := upd (sub_ok (aux s)) i true; polling := polling (aux s) |}) (ESubRel i))
+                                    sub_ok := upd (sub_ok (aux s)) i true; polling := polling (aux s);
+                                    finals := finals (aux s) |}) (ESubRel i))
     else None
   | LQuiet => None
   | LSnap _ => None
@@ -1156,6 +1175,6 @@ Definition key (s : state) : list N :=
   ++ flat_map key_mon (mon s) ++ sep :: flat_map (fun q => sep :: map nn q) (mq s)
   ++ sep :: map nn (cur s) ++ sep :: flat_map key_ost (smap s)
   ++ [sep; nn (hup s); nn (passes s)] ++ map nn (rtrig (aux s)) ++ sep :: map nn (strig (aux s))
-  ++ sep :: map bb (sub_ok (aux s)) ++ [sep; bb (polling (aux s))]
+  ++ sep :: map bb (sub_ok (aux s)) ++ [sep; bb (polling (aux s))] ++ flat_map key_ost (finals (aux s)) ++ [sep]
   ++ flat_map (fun kc => nn (fst (fst kc)) :: key_op (snd (fst kc)) ++ [match snd kc with CPending => 0%N | CReady => 1%N | CNew => 2%N end]) (callers s)
   ++ sep :: flat_map (fun b => sep :: key_sub b) (subs s).
